@@ -195,7 +195,8 @@ class HTTPChannel(wasyncore.dispatcher):
             self.current_outbuf_count += num_bytes
             self.total_outbufs_len += num_bytes
             self.sent_continue = True
-            self._flush_some(do_close=do_close)
+            # a socket error marks the channel for closing, as everywhere else
+            self._flush_exception(self._flush_some, do_close=do_close)
 
     def received(self, data):
         """
